@@ -79,6 +79,19 @@ def gen_world(rng, nfuncs=5, max_depth=3, kebab_res=False, futures=False, max_pa
     lines += ["}", "world w { import a; import i; export i; }"]
     return "\n".join(lines) + "\n", g.stats
 
+def gen_async_world(rng, nfuncs=4, max_depth=3):
+    """a world whose functions are ALL `async func` (no resources: constructors cannot be async), imported and
+    exported: under --async=all every binding is async-lifted/lowered at an async function type"""
+    g = witgen.Gen(rng, max_depth=max_depth, features={"map"})
+    funcs = []
+    for i in range(nfuncs):
+        np = rng.choice([0, 1, 1, 2, 3])
+        params = ", ".join(f"p{j}: {g.ty(rng.choice([0, 1, 2]), False)}" for j in range(np))
+        result = f" -> {g.ty(rng.choice([0, 1]), False)}" if rng.random() < 0.8 else ""
+        funcs.append(f"  f{i}: async func({params}){result};")
+    lines = ["package t:t;", "interface i {"] + ["  " + d for _, d in g.defs] + funcs + ["}", "world w { import i; export i; }"]
+    return "\n".join(lines) + "\n", g.stats
+
 # ---------------------------------------------------------------------------------------------
 # values over detailed type terms
 
@@ -989,13 +1002,20 @@ class WorldRun:
             return False
         return True
 
-    def run(self, timeout=60):
+    def run(self, timeout=120, retry_timeout=1800):
+        """a timeout is only reported after the binary also exceeded `retry_timeout` running ALONE
+        (see run_batch: first attempts run in parallel and may starve on a loaded machine)"""
         env = dict(os.environ, ASAN_OPTIONS="detect_leaks=0:abort_on_error=0:halt_on_error=1", UBSAN_OPTIONS="print_stacktrace=0")
         try:
             p = subprocess.run(["./t"], cwd=self.dir, stdout=subprocess.PIPE, stderr=subprocess.PIPE, text=True,
                                timeout=timeout, env=env, errors="replace")
         except subprocess.TimeoutExpired:
-            self.errors.append(("native-run", "timeout")); self.log = ""; self.stderr = ""; return
+            self.timed_out = True
+            self.log, self.stderr, self.obs, self.res_obs, self.sizeof, self.rc = "", "", {}, {}, {}, None
+            if retry_timeout is None:
+                self.errors.append(("native-run", f"timeout: no answer within {timeout} s running alone")); return
+            return
+        self.timed_out = False
         self.log, self.stderr, self.rc = p.stdout, p.stderr, p.returncode
         self.parse_log()
 
@@ -1210,18 +1230,18 @@ def run_batch(worlds, gen_bin, chost_bin, rng, ncases, jobs=16, sanitize=True, t
     gans = par_lines([gen_bin, "gen"], [w.gen_request() for w in worlds], jobs, timeout)
     live = [w for w, a in zip(worlds, gans) if w.take_gen(a)]
     names = sorted({n for w in live for n in w.names_needed()})
-    ids = run_lines([gen_bin, "ident"], [hx(n) for n in names], timeout=timeout)
+    ids = retry_timeouts([gen_bin, "ident"], [hx(n) for n in names], run_lines([gen_bin, "ident"], [hx(n) for n in names], timeout=timeout))
     idmap = {n: unhx(i) for n, i in zip(names, ids)}
     cident = lambda n: idmap[n]
     for w in live: w.plan(rng, ncases)
     reqs = [(w, r) for w in live for r in w.model_requests_static()]
-    ans = run_lines([chost_bin], [r[2] for _, r in reqs], timeout=timeout)
+    ans = retry_timeouts([chost_bin], [r[2] for _, r in reqs], run_lines([chost_bin], [r[2] for _, r in reqs], timeout=timeout))
     for (w, (kind, key, _)), a in zip(reqs, ans): w.take_static(kind, key, a)
     reqs = [(w, r) for w in live for r in w.model_requests_cases()]
-    ans = run_lines([chost_bin], [r[2] for _, r in reqs], timeout=timeout)
+    ans = retry_timeouts([chost_bin], [r[2] for _, r in reqs], run_lines([chost_bin], [r[2] for _, r in reqs], timeout=timeout))
     for (w, (kind, cid, _)), a in zip(reqs, ans): w.take_case(kind, cid, a)
     reqs = [(w, r) for w in live for r in w.model_requests_layout()]
-    ans = run_lines([chost_bin], [r[1] for _, r in reqs], timeout=timeout)
+    ans = retry_timeouts([chost_bin], [r[1] for _, r in reqs], run_lines([chost_bin], [r[1] for _, r in reqs], timeout=timeout))
     for w in live: w.mlayout = {}
     for (w, (key, _)), a in zip(reqs, ans):
         m = re.match(r"size=(\d+) align=(\d+) csize=(\d+) calign=(\d+)", a)
@@ -1229,15 +1249,18 @@ def run_batch(worlds, gen_bin, chost_bin, rng, ncases, jobs=16, sanitize=True, t
     def build_run(w):
         try:
             if w.write_and_build(cident, sanitize=sanitize): w.run()
-            else: w.log, w.stderr, w.obs, w.res_obs = "", "", {}, {}
+            else: w.log, w.stderr, w.obs, w.res_obs, w.sizeof = "", "", {}, {}, {}
         except Exception as e:
             import traceback
             w.errors.append(("machinery", traceback.format_exc()[-2000:]))
-            w.log, w.stderr, w.obs, w.res_obs = "", "", {}, {}
+            w.log, w.stderr, w.obs, w.res_obs, w.sizeof = "", "", {}, {}, {}
     with ThreadPoolExecutor(max_workers=jobs) as ex:
         list(ex.map(build_run, live))
+    for w in live:          # binaries that timed out in the parallel phase: once more, alone, long limit
+        if getattr(w, "timed_out", False):
+            w.run(timeout=1800, retry_timeout=None)
     reqs = [(w, r) for w in live for r in w.lift_requests()]
-    ans = run_lines([chost_bin], [r[1] for _, r in reqs], timeout=timeout)
+    ans = retry_timeouts([chost_bin], [r[1] for _, r in reqs], run_lines([chost_bin], [r[1] for _, r in reqs], timeout=timeout))
     lifted = {}
     for (w, (cid, _)), a in zip(reqs, ans): lifted.setdefault(id(w), {})[cid] = a
     for w in live:
@@ -1368,6 +1391,16 @@ def wasm_batch(runs, gen_bin, workdir, jobs=16, timeout=900):
     return runs
 
 
+def retry_timeouts(cmd, lines, answers, long_timeout=1800):
+    """a `timeout` answer on a loaded machine is not a verdict: ask again, alone, with a long limit"""
+    from vlib import run_lines
+    out = list(answers)
+    for i, a in enumerate(out):
+        if a == "timeout":
+            out[i] = run_lines(cmd, [lines[i]], timeout=long_timeout)[0]
+    return out
+
+
 def par_lines(cmd, lines, jobs, timeout):
     """run_lines over `jobs` server processes (order preserved)"""
     from vlib import run_lines
@@ -1380,7 +1413,7 @@ def par_lines(cmd, lines, jobs, timeout):
     res = [None] * len(lines)
     for i, out in enumerate(outs):
         for j, a in enumerate(out): res[i + j * k] = a
-    return res
+    return retry_timeouts(cmd, lines, res)
 
 
 # ---------------------------------------------------------------------------------------------
